@@ -1565,3 +1565,44 @@ class C20R(C03R):
 
 
 ORACLES.update({c.__name__: c for c in (C03R, C04R, C20R)})
+
+
+class C18S(PropOracle):
+    """System-level half of C18: a batch that is pending or running in the scheduler is never treated as
+    finished, i.e. it is still listed as active when a submitter round ends."""
+
+    prop = "C18"
+
+    def __init__(self):
+        self.in_round = set()
+
+    def digest(self):
+        return repr(sorted(self.in_round))
+
+    def on_vstart(self, w, vp, d):
+        if vp.kind == "login":
+            self.in_round.add(vp.name)
+
+    def on_cmd(self, w, vp, d):
+        if d["prog"] in ("squeue", "sbatch"):
+            self.in_round.add(vp.name)
+
+    def on_transition(self, w, vp, d):
+        if "cluster_config.json" not in w.written or w.data.get("faulty"):
+            return
+        c, s = w.obs.cluster, w.obs.jobstatus
+        if not c or not s or c.get("submitter") is not None or vp.name not in self.in_round:
+            return
+        self.in_round.discard(vp.name)
+        if os.path.exists(w.rootp + "cluster_config.json.lock") or c.get("is_canceled"):
+            return
+        ids = set(s.get("hpc_job_ids", []))
+        for b in w.sim.active_batches():
+            if b.id not in ids and not c.get("is_complete"):
+                self.v(w, f"round of {vp.name} ended with batch {b.id} ({b.state} in the scheduler, jobs {b.jobs}) no longer listed as active "
+                          f"(hpc_job_ids={sorted(ids)})", "active-batch-forgotten")
+            if b.id not in ids and c.get("is_complete"):
+                self.v(w, f"submission completed by {vp.name} while batch {b.id} is {b.state} in the scheduler", "completed-with-active-batch")
+
+
+ORACLES["C18S"] = C18S
